@@ -46,6 +46,26 @@ M = {
     "journal-apply-rejected-param-at-non-issuers": ("optuna/storages/journal/_storage.py",
         "                    if self._is_issued_by_this_worker(log):\n                        raise\n                    return\n",
         "                    if self._is_issued_by_this_worker(log):\n                        raise\n", ["C06"]),
+    # ---- C17 -------------------------------------------------------------------------------
+    "isect-cursor-skips-unfinished": ("optuna/search_space/intersection.py",
+        "        if not trial.state.is_finished():\n            next_cached_trial_number = trial.number\n            continue",
+        "        if not trial.state.is_finished():\n            continue", ["C17"]),
+    "isect-cursor-break-ge": ("optuna/search_space/intersection.py",
+        "        if cached_trial_number > trial.number:", "        if cached_trial_number >= trial.number:", ["C17"]),
+    "group-split-drops-rest": ("optuna/search_space/group_decomposed.py",
+        "            next_search_spaces.append({name: search_space[name] for name in keys - dist_keys})\n", "", ["C17"]),
+    # ---- C12 -------------------------------------------------------------------------------
+    "mem-best-cache-le": ("optuna/storages/_in_memory.py",
+        "            if best_value > new_value:", "            if best_value >= new_value and False or best_value < new_value and trial.number == 0:", ["C12"]),
+    "rdb-best-inf-rank-swapped": ("optuna/storages/_rdb/models.py",
+        "                asc(\n                    case(\n                        {\"INF_NEG\": -1, \"FINITE\": 0, \"INF_POS\": 1},",
+        "                asc(\n                    case(\n                        {\"INF_NEG\": 1, \"FINITE\": 0, \"INF_POS\": -1},", ["C12"]),
+    "best-trial-feasible-fallback-ignores-direction": ("optuna/study/study.py",
+        "            if self.direction == StudyDirection.MAXIMIZE:\n                best_trial = max(feasible_trials",
+        "            if False:\n                best_trial = max(feasible_trials", ["C12"]),
+    "pareto-2d-strictness": ("optuna/study/_multi_objective.py",
+        "def _is_pareto_front_2d(", "def _is_pareto_front_2d_orig(", ["C12"],
+        [("def _is_pareto_front_2d_orig(", "def _is_pareto_front_2d(unique_lexsorted_loss_values):\n    r = _is_pareto_front_2d_orig(unique_lexsorted_loss_values)\n    r[-1:] = True\n    return r\n\n\ndef _is_pareto_front_2d_orig(")]),
     # ---- C05 -------------------------------------------------------------------------------
     "file-unfix-torn-tail": ("optuna/storages/journal/_file.py",
         "            self._drop_unterminated_tail()\n", "", ["C05"]),
